@@ -927,6 +927,11 @@ def main(prop, families=None):
         chk.extra["large_column_scenarios"] = large_column_scenarios(chk, rs, t)
     if prop in ("C02", "C03", "C04", "C06", "C07"):
         chk.extra["large_grid_scenarios"] = large_grid_scenarios(chk, rs, prop, REPLAYS[prop], t)
+    again = rs.repeat_first()
+    chk.extra["first_solves_repeated_at_the_end"] = len(rs.FIRST)
+    if again:
+        chk.violation("%d of the first %d solves of this run, repeated after all the others, no longer return bit-identical fields (largest difference %.3e): something of the solves in between survives in the process"
+                      % (len(again), len(rs.FIRST), max(d for _, d in again)), {"kind": "repeat_after_history", "solves": again}, klass={"check": "repeat_after_history"})
     if rs.MODIFIED:
         chk.violation("the solver modifies argument arrays in place (%s): every relation between two solves that share their arguments is void" % sorted(set(rs.MODIFIED)),
                       {"kind": "inputs_modified", "arguments": sorted(set(rs.MODIFIED))}, klass={"check": "inputs_modified"})
